@@ -67,3 +67,8 @@ spec fn visible(s: &State, n: int) -> bool { s.data_stack@.len() - s.ctx.ds_len 
 spec fn replaced(old: &State, new: &State, n: int, v: Cell) -> bool {
     new.data_stack@ == old.data_stack@.take(old.data_stack@.len() - n).push(v)
 }
+
+// how slice resolves an index: clamped into [0, len], negative ones count from the end
+spec fn slicing_index_spec(idx: int, len: int) -> int {
+    if idx >= 0 { if idx < len { idx } else { len } } else { if -idx <= len { len + idx } else { 0 } }
+}
